@@ -14,9 +14,15 @@ import urllib.parse
 from .. import tlc, graph, common, servers
 
 SEGS_Q = ["", ".", "..", "a.txt", "sub", "..name", "%2e%2e", "index.html", "x.html", "x", "y", "rootx", "secret.txt"]
-SEGS_T = SEGS_Q + ["é.txt", "deep", "root"]
+SEGS_T = SEGS_Q + ["u_e.txt", "deep", "root"]
+# TLC mangles non-ASCII characters in strings: the model uses the ASCII token, the adapter the real name
+REAL = {"u_e.txt": "\u00e9.txt"}
 
-FILES = ["a.txt", "..name", "x.html", "x", "y.html", "index.html", "é.txt", "sub/index.html", "sub/a.txt", "sub/x.html",
+
+def real_name(n):
+    return REAL.get(n, n)
+
+FILES = ["a.txt", "..name", "x.html", "x", "y.html", "index.html", "u_e.txt", "sub/index.html", "sub/a.txt", "sub/x.html",
          "sub/deep/a.txt", "sub/..name", "root/a.txt"]
 DIRS = ["sub", "sub/deep", "root"]
 
@@ -47,7 +53,7 @@ def content_of(p):
 def build(base, w):
     top = os.path.join(base, "P")
     for p, kind in sorted(w, key=lambda e: len(e[0])):
-        path = os.path.join(top, *p)
+        path = os.path.join(top, *[real_name(x) for x in p])
         if kind == "dir":
             os.makedirs(path, exist_ok=True)
         else:
@@ -129,14 +135,15 @@ def run(ctx):
             st = g.state(nid)
             if st["hops"] == 1:
                 first = list(st["segs"][:-1])
-                paths = [("/" + "/".join(first), "redirect"), ("/" + "/".join(st["segs"]), st["outcome"])]
+                paths = [("/" + "/".join(real_name(x) for x in first), "redirect"), ("/" + "/".join(real_name(x) for x in st["segs"]), st["outcome"])]
             else:
-                paths = [("/" + "/".join(st["segs"]), st["outcome"])]
+                paths = [("/" + "/".join(real_name(x) for x in st["segs"]), st["outcome"])]
             appname = st["app"]
             n += 1
             variants = [(apps[(appname, "wsgi")], "wsgi", "abs"), (apps[(appname, "asgi")], "asgi", "abs")]
             for key, a in alt.items():
-                if key[0] == appname and n % 5 == 0:
+                # (the relative / package-relative directory has another name than "root": only paths that stay below it)
+                if key[0] == appname and n % 5 == 0 and ".." not in st["segs"]:
                     variants.append((a, key[1], key[2]))
             for app, iface, dirform in variants:
                 for path, want in paths:
@@ -167,7 +174,7 @@ def run(ctx):
                             if appname == "Files" and path.endswith("/") and o["status"] == 200:
                                 # trailing slash after a regular file: serving that very file is tolerated
                                 ok_alt = any(o["body"] == content_of(p) for p, k in w if k == "file" and
-                                             "/" + "/".join(p[1:]) == path.rstrip("/"))
+                                             "/" + "/".join(real_name(x) for x in p[1:]) == path.rstrip("/"))
                             if not ok_alt:
                                 bad = "expected not-found"
                     if bad:
